@@ -8,9 +8,33 @@
 // evaluator (contract of `evaluate`) and the normaliser (contract of `normalize_weak_head`) are both
 // measured against one and the same set of rules.
 
+// The abstract definitions context: entry p (counted from the outermost binder) is None for a plain variable, or
+// Some((d, off)) for a let-bound one: d is its definition, valid in the context prefix of length p + off.  The variable
+// with index i of a term under a context of length L is entry L - 1 - i.  (This is how the type checker hands
+// definition groups to the conversion check: it pushes (definition_j, n - j) for the n definitions of a group.)
+pub type GCtx = Seq<Option<(STerm, nat)>>;
+
+pub open spec fn g_empty() -> GCtx { Seq::empty() }
+
+// the context extended by b plain binders
+pub open spec fn g_ext(g: GCtx, b: nat) -> GCtx {
+    if b == 0 { g } else { g + Seq::new(b, |i: int| None::<(STerm, nat)>) }
+}
+
+// delta: what variable i unfolds to under g, if it is let-bound: its definition raised to the current depth
+pub open spec fn s_delta(g: GCtx, i: nat) -> Option<STerm> {
+    if i < g.len() {
+        match g[g.len() - 1 - i] {
+            Some((d, off)) => if off <= i + 1 { Some(s_raise(d, (i + 1 - off) as nat)) } else { None },
+            None => None,
+        }
+    } else { None }
+}
+
 // The root rules.
-pub open spec fn s_red_root(t: STerm, u: STerm) -> bool {
+pub open spec fn s_red_root(g: GCtx, t: STerm, u: STerm) -> bool {
     match t {
+        STerm::Var(i) => s_delta(g, i) == Some(u),
         STerm::Node(k, kids) =>
             if is_binary(k) && kids.len() == 2 {
                 // beta (any argument) and the primitives on two literals; Quotient by zero is no redex
@@ -33,224 +57,221 @@ pub open spec fn s_red_root(t: STerm, u: STerm) -> bool {
     }
 }
 
-// One step: a root rule, or one step inside exactly one child.
+// One step: a root rule, or one step inside exactly one child (under the binders of that child, which are plain).
 #[verifier::opaque]
-pub open spec fn s_red(t: STerm, u: STerm) -> bool
+pub open spec fn s_red(g: GCtx, t: STerm, u: STerm) -> bool
     decreases t
 {
-    s_red_root(t, u) || match t {
+    s_red_root(g, t, u) || match t {
         STerm::Node(k, kids) => exists|i: int, a: STerm| #![trigger kids.update(i, a)]
-            0 <= i < kids.len() && s_red(kids[i], a) && u == STerm::Node(k, kids.update(i, a)),
+            0 <= i < kids.len() && s_red(g_ext(g, binds(k, kids.len(), i)), kids[i], a) && u == STerm::Node(k, kids.update(i, a)),
         _ => false,
     }
 }
 
 // n steps, and the reflexive-transitive closure.
-pub open spec fn s_reds(t: STerm, u: STerm, n: nat) -> bool
+pub open spec fn s_reds(g: GCtx, t: STerm, u: STerm, n: nat) -> bool
     decreases n
 {
-    if n == 0 { t == u } else { exists|m: STerm| #![trigger s_red(t, m)] s_red(t, m) && s_reds(m, u, (n - 1) as nat) }
+    if n == 0 { t == u } else { exists|m: STerm| #![trigger s_red(g, t, m)] s_red(g, t, m) && s_reds(g, m, u, (n - 1) as nat) }
 }
 
 #[verifier::opaque]
-pub open spec fn s_rr(t: STerm, u: STerm) -> bool {
-    exists|n: nat| s_reds(t, u, n)
+pub open spec fn s_rr(g: GCtx, t: STerm, u: STerm) -> bool {
+    exists|n: nat| s_reds(g, t, u, n)
 }
 
-pub proof fn lemma_red_root(t: STerm, u: STerm)
-    requires s_red_root(t, u)
-    ensures s_red(t, u)
+pub proof fn lemma_red_root(g: GCtx, t: STerm, u: STerm)
+    requires s_red_root(g, t, u)
+    ensures s_red(g, t, u)
 {
     reveal(s_red);
 }
 
-pub proof fn lemma_red_cong(k: Kind, kids: Seq<STerm>, i: int, a: STerm)
-    requires 0 <= i < kids.len(), s_red(kids[i], a)
-    ensures s_red(STerm::Node(k, kids), STerm::Node(k, kids.update(i, a)))
+pub proof fn lemma_red_cong(g: GCtx, k: Kind, kids: Seq<STerm>, i: int, a: STerm)
+    requires 0 <= i < kids.len(), s_red(g_ext(g, binds(k, kids.len(), i)), kids[i], a)
+    ensures s_red(g, STerm::Node(k, kids), STerm::Node(k, kids.update(i, a)))
 {
     reveal(s_red);
     let t = STerm::Node(k, kids);
     assert(t->Node_1 == kids);
     let w = kids.update(i, a);
-    assert(0 <= i < kids.len() && s_red(kids[i], a) && STerm::Node(k, w) == STerm::Node(k, kids.update(i, a)));
+    assert(0 <= i < kids.len() && s_red(g_ext(g, binds(k, kids.len(), i)), kids[i], a) && STerm::Node(k, w) == STerm::Node(k, kids.update(i, a)));
 }
 
-pub proof fn lemma_reds_trans(t: STerm, m: STerm, u: STerm, n1: nat, n2: nat)
-    requires s_reds(t, m, n1), s_reds(m, u, n2)
-    ensures s_reds(t, u, n1 + n2)
+pub proof fn lemma_reds_trans(g: GCtx, t: STerm, m: STerm, u: STerm, n1: nat, n2: nat)
+    requires s_reds(g, t, m, n1), s_reds(g, m, u, n2)
+    ensures s_reds(g, t, u, n1 + n2)
     decreases n1
 {
     if n1 > 0 {
-        let x = choose|x: STerm| #![trigger s_red(t, x)] s_red(t, x) && s_reds(x, m, (n1 - 1) as nat);
-        lemma_reds_trans(x, m, u, (n1 - 1) as nat, n2);
-        assert(s_red(t, x) && s_reds(x, u, (n1 + n2 - 1) as nat));
+        let x = choose|x: STerm| #![trigger s_red(g, t, x)] s_red(g, t, x) && s_reds(g, x, m, (n1 - 1) as nat);
+        lemma_reds_trans(g, x, m, u, (n1 - 1) as nat, n2);
+        assert(s_red(g, t, x) && s_reds(g, x, u, (n1 + n2 - 1) as nat));
     }
 }
 
-pub proof fn lemma_reds_cong(k: Kind, kids: Seq<STerm>, i: int, a: STerm, n: nat)
-    requires 0 <= i < kids.len(), s_reds(kids[i], a, n)
-    ensures s_reds(STerm::Node(k, kids), STerm::Node(k, kids.update(i, a)), n)
+pub proof fn lemma_reds_cong(g: GCtx, k: Kind, kids: Seq<STerm>, i: int, a: STerm, n: nat)
+    requires 0 <= i < kids.len(), s_reds(g_ext(g, binds(k, kids.len(), i)), kids[i], a, n)
+    ensures s_reds(g, STerm::Node(k, kids), STerm::Node(k, kids.update(i, a)), n)
     decreases n
 {
+    let gi = g_ext(g, binds(k, kids.len(), i));
     if n == 0 {
         assert(kids.update(i, kids[i]) =~= kids);
     } else {
-        let x = choose|x: STerm| #![trigger s_red(kids[i], x)] s_red(kids[i], x) && s_reds(x, a, (n - 1) as nat);
-        lemma_red_cong(k, kids, i, x);
+        let x = choose|x: STerm| #![trigger s_red(gi, kids[i], x)] s_red(gi, kids[i], x) && s_reds(gi, x, a, (n - 1) as nat);
+        lemma_red_cong(g, k, kids, i, x);
         let kids1 = kids.update(i, x);
         assert(kids1[i] == x);
-        lemma_reds_cong(k, kids1, i, a, (n - 1) as nat);
+        assert(kids1.len() == kids.len());
+        lemma_reds_cong(g, k, kids1, i, a, (n - 1) as nat);
         assert(kids1.update(i, a) =~= kids.update(i, a));
-        assert(s_red(STerm::Node(k, kids), STerm::Node(k, kids1)) && s_reds(STerm::Node(k, kids1), STerm::Node(k, kids.update(i, a)), (n - 1) as nat));
+        assert(s_red(g, STerm::Node(k, kids), STerm::Node(k, kids1)) && s_reds(g, STerm::Node(k, kids1), STerm::Node(k, kids.update(i, a)), (n - 1) as nat));
     }
 }
 
-pub proof fn lemma_rr_refl(t: STerm)
-    ensures s_rr(t, t)
+pub proof fn lemma_rr_refl(g: GCtx, t: STerm)
+    ensures s_rr(g, t, t)
 {
     reveal(s_rr);
-    assert(s_reds(t, t, 0));
+    assert(s_reds(g, t, t, 0));
 }
 
-pub proof fn lemma_rr_step(t: STerm, u: STerm)
-    requires s_red(t, u)
-    ensures s_rr(t, u)
+pub proof fn lemma_rr_step(g: GCtx, t: STerm, u: STerm)
+    requires s_red(g, t, u)
+    ensures s_rr(g, t, u)
 {
     reveal(s_rr);
-    assert(s_reds(u, u, 0));
-    assert(s_red(t, u) && s_reds(u, u, 0));
-    assert(s_reds(t, u, 1));
+    assert(s_reds(g, u, u, 0));
+    assert(s_red(g, t, u) && s_reds(g, u, u, 0));
+    assert(s_reds(g, t, u, 1));
 }
 
-pub proof fn lemma_rr_root(t: STerm, u: STerm)
-    requires s_red_root(t, u)
-    ensures s_rr(t, u)
+pub proof fn lemma_rr_root(g: GCtx, t: STerm, u: STerm)
+    requires s_red_root(g, t, u)
+    ensures s_rr(g, t, u)
 {
-    lemma_red_root(t, u);
-    lemma_rr_step(t, u);
+    lemma_red_root(g, t, u);
+    lemma_rr_step(g, t, u);
 }
 
-pub proof fn lemma_rr_trans(t: STerm, m: STerm, u: STerm)
-    requires s_rr(t, m), s_rr(m, u)
-    ensures s_rr(t, u)
-{
-    reveal(s_rr);
-    let n1 = choose|n: nat| s_reds(t, m, n);
-    let n2 = choose|n: nat| s_reds(m, u, n);
-    lemma_reds_trans(t, m, u, n1, n2);
-}
-
-pub proof fn lemma_rr_cong(k: Kind, kids: Seq<STerm>, i: int, a: STerm)
-    requires 0 <= i < kids.len(), s_rr(kids[i], a)
-    ensures s_rr(STerm::Node(k, kids), STerm::Node(k, kids.update(i, a)))
+pub proof fn lemma_rr_trans(g: GCtx, t: STerm, m: STerm, u: STerm)
+    requires s_rr(g, t, m), s_rr(g, m, u)
+    ensures s_rr(g, t, u)
 {
     reveal(s_rr);
-    let n = choose|n: nat| s_reds(kids[i], a, n);
-    lemma_reds_cong(k, kids, i, a, n);
+    let n1 = choose|n: nat| s_reds(g, t, m, n);
+    let n2 = choose|n: nat| s_reds(g, m, u, n);
+    lemma_reds_trans(g, t, m, u, n1, n2);
 }
 
-pub proof fn lemma_rr_cong1(k: Kind, a: STerm, a2: STerm)
-    requires s_rr(a, a2)
-    ensures s_rr(STerm::Node(k, s1(a)), STerm::Node(k, s1(a2)))
+pub proof fn lemma_rr_cong(g: GCtx, k: Kind, kids: Seq<STerm>, i: int, a: STerm)
+    requires 0 <= i < kids.len(), s_rr(g_ext(g, binds(k, kids.len(), i)), kids[i], a)
+    ensures s_rr(g, STerm::Node(k, kids), STerm::Node(k, kids.update(i, a)))
+{
+    reveal(s_rr);
+    let n = choose|n: nat| s_reds(g_ext(g, binds(k, kids.len(), i)), kids[i], a, n);
+    lemma_reds_cong(g, k, kids, i, a, n);
+}
+
+pub proof fn lemma_rr_cong1(g: GCtx, k: Kind, a: STerm, a2: STerm)
+    requires s_rr(g_ext(g, binds(k, 1, 0)), a, a2)
+    ensures s_rr(g, STerm::Node(k, s1(a)), STerm::Node(k, s1(a2)))
 {
     assert(s1(a)[0] == a);
-    lemma_rr_cong(k, s1(a), 0, a2);
+    lemma_rr_cong(g, k, s1(a), 0, a2);
     assert(s1(a).update(0, a2) =~= s1(a2));
 }
 
-pub proof fn lemma_rr_cong2(k: Kind, a: STerm, b: STerm, a2: STerm, b2: STerm)
-    requires s_rr(a, a2), s_rr(b, b2)
-    ensures s_rr(STerm::Node(k, s2(a, b)), STerm::Node(k, s2(a2, b2)))
+pub proof fn lemma_rr_cong2(g: GCtx, k: Kind, a: STerm, b: STerm, a2: STerm, b2: STerm)
+    requires s_rr(g_ext(g, binds(k, 2, 0)), a, a2), s_rr(g_ext(g, binds(k, 2, 1)), b, b2)
+    ensures s_rr(g, STerm::Node(k, s2(a, b)), STerm::Node(k, s2(a2, b2)))
 {
     assert(s2(a, b)[0] == a);
-    lemma_rr_cong(k, s2(a, b), 0, a2);
+    lemma_rr_cong(g, k, s2(a, b), 0, a2);
     assert(s2(a, b).update(0, a2) =~= s2(a2, b));
     assert(s2(a2, b)[1] == b);
-    lemma_rr_cong(k, s2(a2, b), 1, b2);
+    lemma_rr_cong(g, k, s2(a2, b), 1, b2);
     assert(s2(a2, b).update(1, b2) =~= s2(a2, b2));
-    lemma_rr_trans(STerm::Node(k, s2(a, b)), STerm::Node(k, s2(a2, b)), STerm::Node(k, s2(a2, b2)));
+    lemma_rr_trans(g, STerm::Node(k, s2(a, b)), STerm::Node(k, s2(a2, b)), STerm::Node(k, s2(a2, b2)));
 }
 
-pub proof fn lemma_rr_cong3(k: Kind, a: STerm, b: STerm, c: STerm, a2: STerm, b2: STerm, c2: STerm)
-    requires s_rr(a, a2), s_rr(b, b2), s_rr(c, c2)
-    ensures s_rr(STerm::Node(k, s3(a, b, c)), STerm::Node(k, s3(a2, b2, c2)))
+pub proof fn lemma_rr_cong3(g: GCtx, k: Kind, a: STerm, b: STerm, c: STerm, a2: STerm, b2: STerm, c2: STerm)
+    requires s_rr(g_ext(g, binds(k, 3, 0)), a, a2), s_rr(g_ext(g, binds(k, 3, 1)), b, b2), s_rr(g_ext(g, binds(k, 3, 2)), c, c2)
+    ensures s_rr(g, STerm::Node(k, s3(a, b, c)), STerm::Node(k, s3(a2, b2, c2)))
 {
     assert(s3(a, b, c)[0] == a);
-    lemma_rr_cong(k, s3(a, b, c), 0, a2);
+    lemma_rr_cong(g, k, s3(a, b, c), 0, a2);
     assert(s3(a, b, c).update(0, a2) =~= s3(a2, b, c));
     assert(s3(a2, b, c)[1] == b);
-    lemma_rr_cong(k, s3(a2, b, c), 1, b2);
+    lemma_rr_cong(g, k, s3(a2, b, c), 1, b2);
     assert(s3(a2, b, c).update(1, b2) =~= s3(a2, b2, c));
     assert(s3(a2, b2, c)[2] == c);
-    lemma_rr_cong(k, s3(a2, b2, c), 2, c2);
+    lemma_rr_cong(g, k, s3(a2, b2, c), 2, c2);
     assert(s3(a2, b2, c).update(2, c2) =~= s3(a2, b2, c2));
-    lemma_rr_trans(STerm::Node(k, s3(a, b, c)), STerm::Node(k, s3(a2, b, c)), STerm::Node(k, s3(a2, b2, c)));
-    lemma_rr_trans(STerm::Node(k, s3(a, b, c)), STerm::Node(k, s3(a2, b2, c)), STerm::Node(k, s3(a2, b2, c2)));
+    lemma_rr_trans(g, STerm::Node(k, s3(a, b, c)), STerm::Node(k, s3(a2, b, c)), STerm::Node(k, s3(a2, b2, c)));
+    lemma_rr_trans(g, STerm::Node(k, s3(a, b, c)), STerm::Node(k, s3(a2, b2, c)), STerm::Node(k, s3(a2, b2, c2)));
 }
 
 // ---- the root rules, spelled out for the arities the normaliser uses ---------------------------------
 
-pub proof fn lemma_root_beta(im: bool, dom: STerm, body: STerm, arg: STerm)
-    ensures s_rr(STerm::Node(Kind::App, s2(STerm::Node(Kind::Lambda(im), s2(dom, body)), arg)), s_open(body, 0, arg, 0))
-{
-    let lam = STerm::Node(Kind::Lambda(im), s2(dom, body));
-    let t = STerm::Node(Kind::App, s2(lam, arg));
-    assert(s2(lam, arg)[0] == lam && s2(lam, arg)[1] == arg && s2(lam, arg).len() == 2);
-    assert(s2(dom, body)[1] == body && s2(dom, body).len() == 2);
-    assert(t->Node_1 == s2(lam, arg));
-    assert(lam->Node_1 == s2(dom, body));
-    lemma_rr_root(t, s_open(body, 0, arg, 0));
-}
-
-pub proof fn lemma_root_prim(k: Kind, a: STerm, b: STerm, u: STerm)
+pub proof fn lemma_root_prim(g: GCtx, k: Kind, a: STerm, b: STerm, u: STerm)
     requires is_binary(k), s_prim(k, a, b) == Some(u)
-    ensures s_rr(STerm::Node(k, s2(a, b)), u)
+    ensures s_rr(g, STerm::Node(k, s2(a, b)), u)
 {
     let t = STerm::Node(k, s2(a, b));
     assert(s2(a, b)[0] == a && s2(a, b)[1] == b && s2(a, b).len() == 2);
     assert(t->Node_1 == s2(a, b));
-    lemma_rr_root(t, u);
+    lemma_rr_root(g, t, u);
 }
 
-pub proof fn lemma_root_neg(a: STerm, x: int)
+pub proof fn lemma_root_neg(g: GCtx, a: STerm, x: int)
     requires lit_of(a) == Some(x)
-    ensures s_rr(STerm::Node(Kind::Neg, s1(a)), s_lit(-x))
+    ensures s_rr(g, STerm::Node(Kind::Neg, s1(a)), s_lit(-x))
 {
     let t = STerm::Node(Kind::Neg, s1(a));
     assert(s1(a)[0] == a && s1(a).len() == 1);
     assert(t->Node_1 == s1(a));
-    lemma_rr_root(t, s_lit(-x));
+    lemma_rr_root(g, t, s_lit(-x));
 }
 
-pub proof fn lemma_root_if(c: STerm, a: STerm, b: STerm)
+pub proof fn lemma_root_if(g: GCtx, c: STerm, a: STerm, b: STerm)
     ensures
-        c is Node && c->Node_0 == Kind::True ==> s_rr(STerm::Node(Kind::If, s3(c, a, b)), a),
-        c is Node && c->Node_0 == Kind::False ==> s_rr(STerm::Node(Kind::If, s3(c, a, b)), b),
+        c is Node && c->Node_0 == Kind::True ==> s_rr(g, STerm::Node(Kind::If, s3(c, a, b)), a),
+        c is Node && c->Node_0 == Kind::False ==> s_rr(g, STerm::Node(Kind::If, s3(c, a, b)), b),
 {
     let t = STerm::Node(Kind::If, s3(c, a, b));
     assert(s3(c, a, b)[0] == c && s3(c, a, b)[1] == a && s3(c, a, b)[2] == b && s3(c, a, b).len() == 3);
     assert(t->Node_1 == s3(c, a, b));
-    if c is Node && c->Node_0 == Kind::True { lemma_rr_root(t, a); }
-    if c is Node && c->Node_0 == Kind::False { lemma_rr_root(t, b); }
+    if c is Node && c->Node_0 == Kind::True { lemma_rr_root(g, t, a); }
+    if c is Node && c->Node_0 == Kind::False { lemma_rr_root(g, t, b); }
 }
 
-pub proof fn lemma_root_let(kids: Seq<STerm>)
+pub proof fn lemma_root_let(g: GCtx, kids: Seq<STerm>)
     requires kids.len() % 2 == 1
     ensures
-        kids.len() == 1 ==> s_rr(STerm::Node(Kind::Let, kids), kids[0]),
-        kids.len() >= 3 ==> s_rr(STerm::Node(Kind::Let, kids), s_let_subst(kids, ((kids.len() - 1) / 2) as nat)),
+        kids.len() == 1 ==> s_rr(g, STerm::Node(Kind::Let, kids), kids[0]),
+        kids.len() >= 3 ==> s_rr(g, STerm::Node(Kind::Let, kids), s_let_subst(kids, ((kids.len() - 1) / 2) as nat)),
 {
     let t = STerm::Node(Kind::Let, kids);
     assert(t->Node_1 == kids);
-    if kids.len() == 1 { lemma_rr_root(t, kids[0]); }
-    if kids.len() >= 3 { lemma_rr_root(t, s_let_subst(kids, ((kids.len() - 1) / 2) as nat)); }
+    if kids.len() == 1 { lemma_rr_root(g, t, kids[0]); }
+    if kids.len() >= 3 { lemma_rr_root(g, t, s_let_subst(kids, ((kids.len() - 1) / 2) as nat)); }
 }
 
-// ---- the evaluator's semantics is a sub-relation: every s_step is an s_red ---------------------------
+pub proof fn lemma_root_delta(g: GCtx, i: nat, u: STerm)
+    requires s_delta(g, i) == Some(u)
+    ensures s_rr(g, STerm::Var(i), u)
+{
+    lemma_rr_root(g, STerm::Var(i), u);
+}
 
-pub proof fn lemma_step_is_red(t: STerm)
+// ---- the evaluator's semantics is a sub-relation: every s_step is an s_red (under any context) ---------
+
+pub proof fn lemma_step_is_red(g: GCtx, t: STerm)
     requires s_step(t) is Some
-    ensures s_red(t, s_step(t).unwrap())
+    ensures s_red(g, t, s_step(t).unwrap())
     decreases t
 {
     reveal(s_step);
@@ -259,41 +280,41 @@ pub proof fn lemma_step_is_red(t: STerm)
             assert(t->Node_1 == kids);
             if is_binary(k) && kids.len() == 2 {
                 if s_step(kids[0]) is Some {
-                    lemma_step_is_red(kids[0]);
-                    lemma_red_cong(k, kids, 0, s_step(kids[0]).unwrap());
+                    lemma_step_is_red(g_ext(g, binds(k, kids.len(), 0)), kids[0]);
+                    lemma_red_cong(g, k, kids, 0, s_step(kids[0]).unwrap());
                     assert(kids.update(0, s_step(kids[0]).unwrap()) =~= s2(s_step(kids[0]).unwrap(), kids[1]));
                 } else if s_step(kids[1]) is Some {
-                    lemma_step_is_red(kids[1]);
-                    lemma_red_cong(k, kids, 1, s_step(kids[1]).unwrap());
+                    lemma_step_is_red(g_ext(g, binds(k, kids.len(), 1)), kids[1]);
+                    lemma_red_cong(g, k, kids, 1, s_step(kids[1]).unwrap());
                     assert(kids.update(1, s_step(kids[1]).unwrap()) =~= s2(kids[0], s_step(kids[1]).unwrap()));
                 } else {
-                    lemma_red_root(t, s_step(t).unwrap());
+                    lemma_red_root(g, t, s_step(t).unwrap());
                 }
             } else if k == Kind::Neg && kids.len() == 1 {
                 if s_step(kids[0]) is Some {
-                    lemma_step_is_red(kids[0]);
-                    lemma_red_cong(k, kids, 0, s_step(kids[0]).unwrap());
+                    lemma_step_is_red(g_ext(g, binds(k, kids.len(), 0)), kids[0]);
+                    lemma_red_cong(g, k, kids, 0, s_step(kids[0]).unwrap());
                     assert(kids.update(0, s_step(kids[0]).unwrap()) =~= s1(s_step(kids[0]).unwrap()));
                 } else {
-                    lemma_red_root(t, s_step(t).unwrap());
+                    lemma_red_root(g, t, s_step(t).unwrap());
                 }
             } else if k == Kind::If && kids.len() == 3 {
                 if s_step(kids[0]) is Some {
-                    lemma_step_is_red(kids[0]);
-                    lemma_red_cong(k, kids, 0, s_step(kids[0]).unwrap());
+                    lemma_step_is_red(g_ext(g, binds(k, kids.len(), 0)), kids[0]);
+                    lemma_red_cong(g, k, kids, 0, s_step(kids[0]).unwrap());
                     assert(kids.update(0, s_step(kids[0]).unwrap()) =~= s3(s_step(kids[0]).unwrap(), kids[1], kids[2]));
                 } else {
-                    lemma_red_root(t, s_step(t).unwrap());
+                    lemma_red_root(g, t, s_step(t).unwrap());
                 }
             } else if k == Kind::Let && kids.len() % 2 == 1 {
                 let m = ((kids.len() - 1) / 2) as nat;
                 if m == 0 {
-                    lemma_red_root(t, kids[0]);
+                    lemma_red_root(g, t, kids[0]);
                 } else if s_step(kids[m as int]) is Some {
-                    lemma_step_is_red(kids[m as int]);
-                    lemma_red_cong(k, kids, m as int, s_step(kids[m as int]).unwrap());
+                    lemma_step_is_red(g_ext(g, binds(k, kids.len(), m as int)), kids[m as int]);
+                    lemma_red_cong(g, k, kids, m as int, s_step(kids[m as int]).unwrap());
                 } else {
-                    lemma_red_root(t, s_let_subst(kids, m));
+                    lemma_red_root(g, t, s_let_subst(kids, m));
                 }
             }
         }
@@ -301,26 +322,26 @@ pub proof fn lemma_step_is_red(t: STerm)
     }
 }
 
-pub proof fn lemma_steps_is_reds(t: STerm, v: STerm, n: nat)
+pub proof fn lemma_steps_is_reds(g: GCtx, t: STerm, v: STerm, n: nat)
     requires s_steps(t, n) == Some(v)
-    ensures s_reds(t, v, n)
+    ensures s_reds(g, t, v, n)
     decreases n
 {
     if n > 0 {
         let t1 = s_step(t).unwrap();
-        lemma_step_is_red(t);
-        lemma_steps_is_reds(t1, v, (n - 1) as nat);
-        assert(s_red(t, t1) && s_reds(t1, v, (n - 1) as nat));
+        lemma_step_is_red(g, t);
+        lemma_steps_is_reds(g, t1, v, (n - 1) as nat);
+        assert(s_red(g, t, t1) && s_reds(g, t1, v, (n - 1) as nat));
     }
 }
 
-pub proof fn lemma_reach_is_rr(t: STerm, v: STerm)
+pub proof fn lemma_reach_is_rr(g: GCtx, t: STerm, v: STerm)
     requires s_reach(t, v)
-    ensures s_rr(t, v)
+    ensures s_rr(g, t, v)
 {
     reveal(s_rr);
     let n = choose|n: nat| s_steps(t, n) == Some(v);
-    lemma_steps_is_reds(t, v, n);
+    lemma_steps_is_reds(g, t, v, n);
 }
 
 // ---- ground results: integer literals and the two truth values do not reduce --------------------------
@@ -329,15 +350,15 @@ pub open spec fn s_ground(t: STerm) -> bool {
     t is Node && t->Node_1.len() == 0 && (t->Node_0 is Lit || t->Node_0 == Kind::True || t->Node_0 == Kind::False)
 }
 
-pub proof fn lemma_ground_normal(t: STerm, u: STerm, n: nat)
-    requires s_ground(t), s_reds(t, u, n)
+pub proof fn lemma_ground_normal(g: GCtx, t: STerm, u: STerm, n: nat)
+    requires s_ground(t), s_reds(g, t, u, n)
     ensures u == t
     decreases n
 {
     if n > 0 {
-        let x = choose|x: STerm| #![trigger s_red(t, x)] s_red(t, x) && s_reds(x, u, (n - 1) as nat);
+        let x = choose|x: STerm| #![trigger s_red(g, t, x)] s_red(g, t, x) && s_reds(g, x, u, (n - 1) as nat);
         reveal(s_red);
-        assert(!s_red_root(t, x));
+        assert(!s_red_root(g, t, x));
         assert(false);
     }
 }
@@ -346,27 +367,28 @@ pub proof fn lemma_ground_normal(t: STerm, u: STerm, n: nat)
 // Standard for beta + delta (definition unfolding) + primitive rules on disjoint redex shapes; mechanising it
 // (parallel reduction / Takahashi) is outside this effort.  Everything else in this file is proved.
 #[verifier::external_body]
-pub proof fn axiom_confluence(t: STerm, a: STerm, b: STerm)
-    requires s_rr(t, a), s_rr(t, b)
-    ensures exists|c: STerm| #![trigger s_rr(a, c)] s_rr(a, c) && s_rr(b, c)
+pub proof fn axiom_confluence(g: GCtx, t: STerm, a: STerm, b: STerm)
+    requires s_rr(g, t, a), s_rr(g, t, b)
+    ensures exists|c: STerm| #![trigger s_rr(g, a, c)] s_rr(g, a, c) && s_rr(g, b, c)
 {
 }
 
 // C06, first sentence, on the abstract view: if evaluation (s_step*, the relation `evaluate` is proved against)
-// reaches a ground result v and normalisation (s_red*, the relation `normalize_weak_head` is proved against)
-// reaches a ground result w, then v == w.
+// reaches a ground result v and normalisation (s_red* under the empty context, the relation `normalize_weak_head`
+// is proved against) reaches a ground result w, then v == w.
 pub proof fn theorem_normalise_agrees_with_evaluate(t: STerm, v: STerm, w: STerm)
-    requires s_reach(t, v), s_rr(t, w), s_ground(v), s_ground(w)
+    requires s_reach(t, v), s_rr(g_empty(), t, w), s_ground(v), s_ground(w)
     ensures v == w
 {
-    lemma_reach_is_rr(t, v);
-    axiom_confluence(t, v, w);
-    let c = choose|c: STerm| #![trigger s_rr(v, c)] s_rr(v, c) && s_rr(w, c);
+    let g = g_empty();
+    lemma_reach_is_rr(g, t, v);
+    axiom_confluence(g, t, v, w);
+    let c = choose|c: STerm| #![trigger s_rr(g, v, c)] s_rr(g, v, c) && s_rr(g, w, c);
     reveal(s_rr);
-    let n1 = choose|n: nat| s_reds(v, c, n);
-    let n2 = choose|n: nat| s_reds(w, c, n);
-    lemma_ground_normal(v, c, n1);
-    lemma_ground_normal(w, c, n2);
+    let n1 = choose|n: nat| s_reds(g, v, c, n);
+    let n2 = choose|n: nat| s_reds(g, w, c, n);
+    lemma_ground_normal(g, v, c, n1);
+    lemma_ground_normal(g, w, c, n2);
 }
 
 // ---- erasure of what the conversion check ignores: the parameter annotation of a function and the
@@ -466,83 +488,86 @@ pub proof fn lemma_erase_shapes(a: STerm, b: STerm)
 // ---- convertibility: a common reduct up to erasure -----------------------------------------------------
 
 #[verifier::opaque]
-pub open spec fn s_conv(a: STerm, b: STerm) -> bool {
-    exists|c: STerm, d: STerm| #![trigger s_rr(a, c), s_rr(b, d)] s_rr(a, c) && s_rr(b, d) && s_erase(c) == s_erase(d)
+pub open spec fn s_conv(g: GCtx, a: STerm, b: STerm) -> bool {
+    exists|c: STerm, d: STerm| #![trigger s_rr(g, a, c), s_rr(g, b, d)] s_rr(g, a, c) && s_rr(g, b, d) && s_erase(c) == s_erase(d)
 }
 
-pub proof fn lemma_conv_intro(a: STerm, b: STerm, c: STerm, d: STerm)
-    requires s_rr(a, c), s_rr(b, d), s_erase(c) == s_erase(d)
-    ensures s_conv(a, b)
+pub proof fn lemma_conv_intro(g: GCtx, a: STerm, b: STerm, c: STerm, d: STerm)
+    requires s_rr(g, a, c), s_rr(g, b, d), s_erase(c) == s_erase(d)
+    ensures s_conv(g, a, b)
 {
     reveal(s_conv);
 }
 
-pub proof fn lemma_conv_erase_eq(a: STerm, b: STerm)
+pub proof fn lemma_conv_erase_eq(g: GCtx, a: STerm, b: STerm)
     requires s_erase(a) == s_erase(b)
-    ensures s_conv(a, b)
+    ensures s_conv(g, a, b)
 {
-    lemma_rr_refl(a);
-    lemma_rr_refl(b);
-    lemma_conv_intro(a, b, a, b);
+    lemma_rr_refl(g, a);
+    lemma_rr_refl(g, b);
+    lemma_conv_intro(g, a, b, a, b);
 }
 
 // conversion is closed under reduction of either side (backwards)
-pub proof fn lemma_conv_pre(a: STerm, a1: STerm, b: STerm, b1: STerm)
-    requires s_rr(a, a1), s_rr(b, b1), s_conv(a1, b1)
-    ensures s_conv(a, b)
+pub proof fn lemma_conv_pre(g: GCtx, a: STerm, a1: STerm, b: STerm, b1: STerm)
+    requires s_rr(g, a, a1), s_rr(g, b, b1), s_conv(g, a1, b1)
+    ensures s_conv(g, a, b)
 {
     reveal(s_conv);
-    let (c, d) = choose|c: STerm, d: STerm| #![trigger s_rr(a1, c), s_rr(b1, d)] s_rr(a1, c) && s_rr(b1, d) && s_erase(c) == s_erase(d);
-    lemma_rr_trans(a, a1, c);
-    lemma_rr_trans(b, b1, d);
-    assert(s_rr(a, c) && s_rr(b, d) && s_erase(c) == s_erase(d));
+    let (c, d) = choose|c: STerm, d: STerm| #![trigger s_rr(g, a1, c), s_rr(g, b1, d)] s_rr(g, a1, c) && s_rr(g, b1, d) && s_erase(c) == s_erase(d);
+    lemma_rr_trans(g, a, a1, c);
+    lemma_rr_trans(g, b, b1, d);
+    assert(s_rr(g, a, c) && s_rr(g, b, d) && s_erase(c) == s_erase(d));
 }
 
-pub proof fn lemma_conv_node1(k: Kind, a1: STerm, a2: STerm)
-    requires s_conv(a1, a2)
-    ensures s_conv(STerm::Node(k, s1(a1)), STerm::Node(k, s1(a2)))
+pub proof fn lemma_conv_node1(g: GCtx, k: Kind, a1: STerm, a2: STerm)
+    requires s_conv(g_ext(g, binds(k, 1, 0)), a1, a2)
+    ensures s_conv(g, STerm::Node(k, s1(a1)), STerm::Node(k, s1(a2)))
 {
     reveal(s_conv);
-    let (c, d) = choose|c: STerm, d: STerm| #![trigger s_rr(a1, c), s_rr(a2, d)] s_rr(a1, c) && s_rr(a2, d) && s_erase(c) == s_erase(d);
-    lemma_rr_cong1(k, a1, c);
-    lemma_rr_cong1(k, a2, d);
+    let ga = g_ext(g, binds(k, 1, 0));
+    let (c, d) = choose|c: STerm, d: STerm| #![trigger s_rr(ga, a1, c), s_rr(ga, a2, d)] s_rr(ga, a1, c) && s_rr(ga, a2, d) && s_erase(c) == s_erase(d);
+    lemma_rr_cong1(g, k, a1, c);
+    lemma_rr_cong1(g, k, a2, d);
     lemma_erase1(k, c);
     lemma_erase1(k, d);
-    lemma_conv_intro(STerm::Node(k, s1(a1)), STerm::Node(k, s1(a2)), STerm::Node(k, s1(c)), STerm::Node(k, s1(d)));
+    lemma_conv_intro(g, STerm::Node(k, s1(a1)), STerm::Node(k, s1(a2)), STerm::Node(k, s1(c)), STerm::Node(k, s1(d)));
 }
 
-// both children convertible (for a function only the body: its annotation is ignored)
-pub proof fn lemma_conv_node2(k: Kind, a1: STerm, b1: STerm, a2: STerm, b2: STerm)
-    requires k is Lambda || s_conv(a1, a2), s_conv(b1, b2)
-    ensures s_conv(STerm::Node(k, s2(a1, b1)), STerm::Node(k, s2(a2, b2)))
+// both children convertible, each under the binders it sits under (for a function only the body: its annotation is ignored)
+pub proof fn lemma_conv_node2(g: GCtx, k: Kind, a1: STerm, b1: STerm, a2: STerm, b2: STerm)
+    requires k is Lambda || s_conv(g_ext(g, binds(k, 2, 0)), a1, a2), s_conv(g_ext(g, binds(k, 2, 1)), b1, b2)
+    ensures s_conv(g, STerm::Node(k, s2(a1, b1)), STerm::Node(k, s2(a2, b2)))
 {
     reveal(s_conv);
-    let (cb, db) = choose|c: STerm, d: STerm| #![trigger s_rr(b1, c), s_rr(b2, d)] s_rr(b1, c) && s_rr(b2, d) && s_erase(c) == s_erase(d);
+    let ga = g_ext(g, binds(k, 2, 0));
+    let gb = g_ext(g, binds(k, 2, 1));
+    let (cb, db) = choose|c: STerm, d: STerm| #![trigger s_rr(gb, b1, c), s_rr(gb, b2, d)] s_rr(gb, b1, c) && s_rr(gb, b2, d) && s_erase(c) == s_erase(d);
     let (ca, da) = if k is Lambda { (a1, a2) } else {
-        choose|c: STerm, d: STerm| #![trigger s_rr(a1, c), s_rr(a2, d)] s_rr(a1, c) && s_rr(a2, d) && s_erase(c) == s_erase(d)
+        choose|c: STerm, d: STerm| #![trigger s_rr(ga, a1, c), s_rr(ga, a2, d)] s_rr(ga, a1, c) && s_rr(ga, a2, d) && s_erase(c) == s_erase(d)
     };
-    lemma_rr_refl(a1);
-    lemma_rr_refl(a2);
-    lemma_rr_cong2(k, a1, b1, ca, cb);
-    lemma_rr_cong2(k, a2, b2, da, db);
+    lemma_rr_refl(ga, a1);
+    lemma_rr_refl(ga, a2);
+    lemma_rr_cong2(g, k, a1, b1, ca, cb);
+    lemma_rr_cong2(g, k, a2, b2, da, db);
     lemma_erase2(k, ca, cb);
     lemma_erase2(k, da, db);
-    lemma_conv_intro(STerm::Node(k, s2(a1, b1)), STerm::Node(k, s2(a2, b2)), STerm::Node(k, s2(ca, cb)), STerm::Node(k, s2(da, db)));
+    lemma_conv_intro(g, STerm::Node(k, s2(a1, b1)), STerm::Node(k, s2(a2, b2)), STerm::Node(k, s2(ca, cb)), STerm::Node(k, s2(da, db)));
 }
 
-pub proof fn lemma_conv_node3(k: Kind, a1: STerm, b1: STerm, c1: STerm, a2: STerm, b2: STerm, c2: STerm)
-    requires k != Kind::Let, s_conv(a1, a2), s_conv(b1, b2), s_conv(c1, c2)
-    ensures s_conv(STerm::Node(k, s3(a1, b1, c1)), STerm::Node(k, s3(a2, b2, c2)))
+pub proof fn lemma_conv_node3(g: GCtx, k: Kind, a1: STerm, b1: STerm, c1: STerm, a2: STerm, b2: STerm, c2: STerm)
+    requires k != Kind::Let, !(k is Lambda), !(k is Pi), s_conv(g, a1, a2), s_conv(g, b1, b2), s_conv(g, c1, c2)
+    ensures s_conv(g, STerm::Node(k, s3(a1, b1, c1)), STerm::Node(k, s3(a2, b2, c2)))
 {
     reveal(s_conv);
-    let (ca, da) = choose|c: STerm, d: STerm| #![trigger s_rr(a1, c), s_rr(a2, d)] s_rr(a1, c) && s_rr(a2, d) && s_erase(c) == s_erase(d);
-    let (cb, db) = choose|c: STerm, d: STerm| #![trigger s_rr(b1, c), s_rr(b2, d)] s_rr(b1, c) && s_rr(b2, d) && s_erase(c) == s_erase(d);
-    let (cc, dc) = choose|c: STerm, d: STerm| #![trigger s_rr(c1, c), s_rr(c2, d)] s_rr(c1, c) && s_rr(c2, d) && s_erase(c) == s_erase(d);
-    lemma_rr_cong3(k, a1, b1, c1, ca, cb, cc);
-    lemma_rr_cong3(k, a2, b2, c2, da, db, dc);
+    let (ca, da) = choose|c: STerm, d: STerm| #![trigger s_rr(g, a1, c), s_rr(g, a2, d)] s_rr(g, a1, c) && s_rr(g, a2, d) && s_erase(c) == s_erase(d);
+    let (cb, db) = choose|c: STerm, d: STerm| #![trigger s_rr(g, b1, c), s_rr(g, b2, d)] s_rr(g, b1, c) && s_rr(g, b2, d) && s_erase(c) == s_erase(d);
+    let (cc, dc) = choose|c: STerm, d: STerm| #![trigger s_rr(g, c1, c), s_rr(g, c2, d)] s_rr(g, c1, c) && s_rr(g, c2, d) && s_erase(c) == s_erase(d);
+    lemma_rr_cong3(g, k, a1, b1, c1, ca, cb, cc);
+    lemma_rr_cong3(g, k, a2, b2, c2, da, db, dc);
     lemma_erase3(k, ca, cb, cc);
     lemma_erase3(k, da, db, dc);
-    lemma_conv_intro(STerm::Node(k, s3(a1, b1, c1)), STerm::Node(k, s3(a2, b2, c2)), STerm::Node(k, s3(ca, cb, cc)), STerm::Node(k, s3(da, db, dc)));
+    lemma_conv_intro(g, STerm::Node(k, s3(a1, b1, c1)), STerm::Node(k, s3(a2, b2, c2)), STerm::Node(k, s3(ca, cb, cc)), STerm::Node(k, s3(da, db, dc)));
 }
 
 // ---- TRUSTED: the physical size bound used by the normaliser and the conversion check ------------------
@@ -555,11 +580,16 @@ pub proof fn lemma_conv_node3(k: Kind, a1: STerm, b1: STerm, c1: STerm, a2: STer
 // PROVED at every use: the term has no unresolved hole, is closed at l + e and below 2^60.
 pub open spec fn HB() -> int { SB() / 2 }
 
+// closedness, kept opaque in this unit: the exec proofs only pass it around, the lemmas reveal it
+#[verifier::opaque]
+pub open spec fn s_cl(t: STerm, c: nat) -> bool { s_closed_at(t, c) }
+
+
 #[verifier::external_body]
 pub proof fn axiom_fits_under<'a>(t: &Term<'a>, ctx: &Vec<Option<(Rc<Term<'a>>, usize)>>, e: nat)
     requires
         s_ok(view(*t), 0, BOUND() as nat),
-        s_closed_at(view(*t), ctx@.len() + e),
+        s_cl(view(*t), ctx@.len() + e),
         e < HB(),
     ensures
         s_ok(view(*t), 0, HB() as nat),
@@ -567,8 +597,24 @@ pub proof fn axiom_fits_under<'a>(t: &Term<'a>, ctx: &Vec<Option<(Rc<Term<'a>>, 
 {
 }
 
-pub open spec fn ctx_plain<'a>(ctx: Seq<Option<(Rc<Term<'a>>, usize)>>) -> bool {
-    forall|i: int| 0 <= i < ctx.len() ==> (#[trigger] ctx[i]) is None
+// the abstract view of the real definitions context
+#[verifier::opaque]
+pub open spec fn ctx_view<'a>(ctx: Seq<Option<(Rc<Term<'a>>, usize)>>) -> GCtx {
+    Seq::new(ctx.len(), |p: int| match ctx[p] {
+        Some((d, off)) => Some((view(*d), off as nat)),
+        None => None::<(STerm, nat)>,
+    })
+}
+
+// Well-formedness of the real definitions context (precondition; what the type checker establishes when it pushes the
+// definitions of a group): a let-bound entry at position p with offset off has its definition valid in the prefix of
+// length p + off, which is part of the context; the definition has no unresolved hole and is small.
+#[verifier::opaque]
+pub open spec fn ctx_ok<'a>(ctx: Seq<Option<(Rc<Term<'a>>, usize)>>) -> bool {
+    forall|p: int| 0 <= p < ctx.len() ==> match #[trigger] ctx[p] {
+        Some((d, off)) => p + off <= ctx.len() && s_ok(view(*d), 0, HB() as nat) && s_cl(view(*d), (p + off) as nat),
+        None => true,
+    }
 }
 
 // what the normaliser returns is never a definition group (and, without unresolved holes, never a hole)
@@ -583,64 +629,66 @@ pub open spec fn t_head_ok(t: Term) -> bool {
 // that is no literal; a conditional whose condition is a whnf that is no truth value.  A definition group or a
 // hole is never one.
 #[verifier::opaque]
-pub open spec fn s_whnf(t: STerm) -> bool
+pub open spec fn s_whnf(g: GCtx, t: STerm) -> bool
     decreases t
 {
     match t {
         STerm::Hole => false,
-        STerm::Var(_) => true,
+        // a let-bound variable unfolds; a plain one is neutral
+        STerm::Var(i) => s_delta(g, i) is None,
         STerm::Node(k, kids) =>
             if s_value(t) { true }
             else if is_binary(k) && kids.len() == 2 {
-                if k == Kind::App { s_whnf(kids[0]) && s_prim(k, kids[0], kids[1]) is None }
-                else { s_whnf(kids[0]) && s_whnf(kids[1]) && s_prim(k, kids[0], kids[1]) is None }
+                if k == Kind::App { s_whnf(g, kids[0]) && s_prim(k, kids[0], kids[1]) is None }
+                else { s_whnf(g, kids[0]) && s_whnf(g, kids[1]) && s_prim(k, kids[0], kids[1]) is None }
             } else if k == Kind::Neg && kids.len() == 1 {
-                s_whnf(kids[0]) && lit_of(kids[0]) is None
+                s_whnf(g, kids[0]) && lit_of(kids[0]) is None
             } else if k == Kind::If && kids.len() == 3 {
-                s_whnf(kids[0]) && !(kids[0] is Node && (kids[0]->Node_0 == Kind::True || kids[0]->Node_0 == Kind::False))
+                s_whnf(g, kids[0]) && !(kids[0] is Node && (kids[0]->Node_0 == Kind::True || kids[0]->Node_0 == Kind::False))
             } else { false },
     }
 }
 
-pub proof fn lemma_whnf_value(t: STerm)
+pub proof fn lemma_whnf_value(g: GCtx, t: STerm)
     requires s_value(t)
-    ensures s_whnf(t)
+    ensures s_whnf(g, t)
 {
     reveal(s_whnf);
 }
 
-pub proof fn lemma_whnf_var(i: nat)
-    ensures s_whnf(STerm::Var(i))
+pub proof fn lemma_whnf_var(g: GCtx, i: nat)
+    requires s_delta(g, i) is None
+    ensures s_whnf(g, STerm::Var(i))
 {
     reveal(s_whnf);
 }
 
-pub proof fn lemma_whnf_shape(t: STerm)
-    requires s_whnf(t)
+pub proof fn lemma_whnf_shape(g: GCtx, t: STerm)
+    requires s_whnf(g, t)
     ensures !(t is Hole), !(t is Node && t->Node_0 == Kind::Let)
 {
     reveal(s_whnf);
 }
 
-pub proof fn lemma_whnf1(a: STerm)
-    ensures s_whnf(STerm::Node(Kind::Neg, s1(a))) == (s_whnf(a) && lit_of(a) is None)
+pub proof fn lemma_whnf1(g: GCtx, a: STerm)
+    ensures s_whnf(g, STerm::Node(Kind::Neg, s1(a))) == (s_whnf(g, a) && lit_of(a) is None)
 {
     reveal(s_whnf);
     assert(s1(a)[0] == a && s1(a).len() == 1);
     assert(STerm::Node(Kind::Neg, s1(a))->Node_1 == s1(a));
 }
 
-pub proof fn lemma_whnf2(k: Kind, a: STerm, b: STerm)
+pub proof fn lemma_whnf2(g: GCtx, k: Kind, a: STerm, b: STerm)
     requires is_binary(k)
-    ensures s_whnf(STerm::Node(k, s2(a, b))) == (s_whnf(a) && (k == Kind::App || s_whnf(b)) && s_prim(k, a, b) is None)
+    ensures s_whnf(g, STerm::Node(k, s2(a, b))) == (s_whnf(g, a) && (k == Kind::App || s_whnf(g, b)) && s_prim(k, a, b) is None)
 {
     reveal(s_whnf);
     assert(s2(a, b)[0] == a && s2(a, b)[1] == b && s2(a, b).len() == 2);
     assert(STerm::Node(k, s2(a, b))->Node_1 == s2(a, b));
 }
 
-pub proof fn lemma_whnf3(c: STerm, a: STerm, b: STerm)
-    ensures s_whnf(STerm::Node(Kind::If, s3(c, a, b))) == (s_whnf(c) && !(c is Node && (c->Node_0 == Kind::True || c->Node_0 == Kind::False)))
+pub proof fn lemma_whnf3(g: GCtx, c: STerm, a: STerm, b: STerm)
+    ensures s_whnf(g, STerm::Node(Kind::If, s3(c, a, b))) == (s_whnf(g, c) && !(c is Node && (c->Node_0 == Kind::True || c->Node_0 == Kind::False)))
 {
     reveal(s_whnf);
     assert(s3(c, a, b)[0] == c && s3(c, a, b).len() == 3);
